@@ -3,12 +3,20 @@ import common
 from props import system_common
 
 
+def worker_half(out, corr, rnd):
+    """the worker's half of termination: under every interleaving of its two threads a worker that has been given work
+    (or the shutdown signal) is never left asleep; includes the fine-grained race search"""
+    from props import worker_common
+    n = int((500 if out.tier == "quick" else 15000) * out.boost)
+    worker_common.run_worker_corr(out, corr, rnd, n, "worker(TestQueue+WorkerInteractor, lock-section interleavings)")
+
+
 def run(out: common.Outcome):
     system_common.standard_run(
         out, "C02", [("nocrash", 0.3), ("crash", 0.7)], ["stuck", "internal_error"],
         nontrivial=lambda r: len(r["cfg"]["coll"]) >= 2,
         rule="all six modes, crashes at arbitrary points (scripted crashing tests and external kills) within the restart budget; a run is stuck when no label is enabled and the session is not over; non-trivial = at least two tests",
-        modes=None)
+        modes=None, extra_corr=worker_half)
 
 
 replay = system_common.replay
